@@ -35,3 +35,4 @@ func verifMentions(msg, s string) bool
 func verifIsOpaque(s string) bool
 func verifMarshalOf(s string, v interface{}) bool
 func verifAbstractFloat() float64
+func verifGrammarAccepts(types []tokType) bool
